@@ -26,20 +26,43 @@ def _node(name, kind='Name', field='body', **attrs):
     return n
 
 
+def _isinstance(o, t):
+    """isinstance for the model: a model ast node is an instance of the stdlib ast classes its kind derives from."""
+    ts = t if isinstance(t, tuple) else (t,)
+    # (the interpreter hands over stdlib classes it does not model as dotted names)
+    ts = tuple(getattr(ast, x[4:], x) if isinstance(x, str) and x.startswith('ast.') else x for x in ts)
+    if isinstance(o, Obj) and '__astclass__' in o.attrs:
+        cls = getattr(ast, o.attrs['__astclass__'], None)
+        return any(isinstance(x, type) and cls is not None and issubclass(cls, x) for x in ts)
+    if isinstance(o, Obj):
+        def names_cait_node(x):
+            cls = getattr(x, '_fd_class', None)     # a pedal class used as a value
+            return x == 'CaitNode' or getattr(cls, 'name', None) == 'CaitNode' or \
+                getattr(getattr(cls, 'node', None), 'name', None) == 'CaitNode'
+        return o._name.startswith('CaitNode') and any(names_cait_node(x) for x in ts)
+    return any(isinstance(x, type) and isinstance(o, x) for x in ts)
+
+
 def r1_every_subtree(ctx, sym, mod):
-    ctx.rule('R1', "StretchyTreeMatcher.any_node_match executed abstractly on a model student tree (three levels, seven "
-                   "nodes) with a root-level matcher that accepts a chosen set of nodes: for every single node and "
+    ctx.rule('R1', "StretchyTreeMatcher.any_node_match executed abstractly on a model student tree (eleven nodes: "
+                   "statements inside statements and inside an except handler) with a root-level matcher that accepts a chosen set of nodes: for every single node and "
                    "every pair of nodes chosen, exactly those matches come back - every subtree is tried as a root and "
                    "no match found deeper in the tree is dropped")
     from .. import symexec
     fn = mod.func('StretchyTreeMatcher.any_node_match')
     ctx.analysed_function(mod, fn)
-    names = ['root', 'a', 'a1', 'a2', 'a21', 'b', 'b1']
-    nodes = {n: _node(n, 'Stmt') for n in names}
-    for parent, kids in (('root', ['a', 'b']), ('a', ['a1', 'a2']), ('a2', ['a21']), ('b', ['b1'])):
+    # a model program: statements inside statements, and statements inside nodes that are not statements themselves
+    # (an except handler, a match case) - the kinds matter to a search that prunes by node category
+    shape = {'root': ('Module', ['a', 'b', 't']), 'a': ('FunctionDef', ['a1', 'a2']), 'a1': ('Assign', []),
+             'a2': ('For', ['a21']), 'a21': ('Assign', []), 'b': ('If', ['b1']), 'b1': ('Assign', []),
+             't': ('Try', ['t1', 'h']), 't1': ('Assign', []), 'h': ('ExceptHandler', ['h1']), 'h1': ('Assign', []),
+             }
+    names = list(shape)
+    nodes = {n: _node(n, shape[n][0]) for n in names}
+    for parent, (_, kids) in shape.items():
         nodes[parent].attrs['children'] = [nodes[k] for k in kids]
-    ins = _node('pattern', 'Stmt')
-    targets = [[n] for n in names] + [['a1', 'b1'], ['root', 'a21'], ['a', 'a2'], []]
+    ins = _node('pattern', 'Assign')
+    targets = [[n] for n in names] + [['a1', 'b1'], ['root', 'a21'], ['a', 'a2'], ['t1', 'h1'], []]
     for chosen in targets:
         me = symexec.self_obj(mod, 'StretchyTreeMatcher')
         tried = []
@@ -51,7 +74,7 @@ def r1_every_subtree(ctx, sym, mod):
                 return [m]
             return []
         symexec.method(me, 'deep_find_match', deep)
-        fd = symexec.new_fd(sym, mod)
+        fd = symexec.new_fd(sym, mod, calls={'isinstance': _isinstance})
         got, raised = symexec.run(fd, fn, [ins, nodes['root']], bound_self=me,
                                   what='StretchyTreeMatcher.any_node_match')
         found = [m.attrs['mappings'][ins] for m in got] if isinstance(got, list) else None
@@ -119,11 +142,308 @@ def r2_placeholders_match_anything(ctx, sym, mod):
                           "loses the match")
 
 
+def _variants(pair, alts):
+    """The maps one pattern-child/student-child pair can be matched by: one, or two when the pair is in `alts` (a
+    commutative operator matched straight or swapped, say) - told apart by a marker entry."""
+    if pair in alts:
+        return [frozenset([pair, ('plain',) + pair]), frozenset([pair, ('alt',) + pair])]
+    return [frozenset([pair])]
+
+
+def _assignments(n_ins, n_std, matches, conflicts, alts=()):
+    """Every order-preserving way to pair the pattern's children with student children: strictly increasing positions,
+    each pair allowed by `matches`, no two chosen entries in `conflicts` (bindings that contradict each other)."""
+    import itertools
+    out = []
+    for js in itertools.combinations(range(n_std), n_ins):
+        pairs = list(enumerate(js))
+        if not all(j in matches.get(i, ()) for i, j in pairs):
+            continue
+        for choice in itertools.product(*[_variants(p, alts) for p in pairs]):
+            entries = frozenset().union(*choice)
+            if not any(frozenset((p, q)) in conflicts for p in entries for q in entries if p != q):
+                out.append(entries)
+    return out
+
+
+def r3_sibling_search(ctx, sym, mod):
+    ctx.rule('R3', "StretchyTreeMatcher.deep_find_match_generic and map_merge executed abstractly on one level of a model "
+                   "pattern/program pair (children matched by a table, bindings that contradict by a table, model maps "
+                   "that record the pairs they hold): every order-preserving, conflict-free way of pairing the pattern's "
+                   "children with student children is among the maps returned - all 64 match tables for 2 pattern "
+                   "children x 3 student children, and named scenarios with 3 x 5 (first candidate rejected by a "
+                   "binding conflict, wildcards everywhere, only the last positions match)")
+    import itertools
+    from .. import symexec
+    fn = mod.func('StretchyTreeMatcher.deep_find_match_generic')
+    mm = mod.func('StretchyTreeMatcher.map_merge')
+    ctx.analysed_function(mod, fn)
+    ctx.analysed_function(mod, mm)
+
+    def scenario(n_ins, n_std, matches, conflicts, alts=()):
+        ins_kids = [_node('p%d' % i, 'Expr', field='body') for i in range(n_ins)]
+        std_kids = [_node('s%d' % j, 'Expr', field='body') for j in range(n_std)]
+        ins = _node('pattern-parent', 'Module')
+        std = _node('student-parent', 'Module')
+        ins.attrs['children'], std.attrs['children'] = ins_kids, std_kids
+
+        def new_map(pairs):
+            m = Obj('map', pairs=frozenset(pairs), __open__=True)
+            symexec.method(m, 'new_merged_map', lambda other: new_map(
+                m.attrs['pairs'] | (other.attrs['pairs'] if isinstance(other, Obj) else frozenset())))
+            symexec.method(m, 'merge_map_with', lambda other: m.attrs.__setitem__(
+                'pairs', m.attrs['pairs'] | (other.attrs['pairs'] if isinstance(other, Obj) else frozenset())))
+            symexec.method(m, 'has_conflicts', lambda: any(
+                frozenset((a, b)) in conflicts for a in m.attrs['pairs'] for b in m.attrs['pairs'] if a != b))
+            return m
+        me = symexec.self_obj(mod, 'StretchyTreeMatcher')
+        symexec.method(me, 'shallow_match', lambda a, b, *r, **k: [new_map([])])
+
+        def deep(a, b, *r, **k):
+            i = next((x for x, n in enumerate(ins_kids) if n is a), None)
+            j = next((x for x, n in enumerate(std_kids) if n is b), None)
+            if i is None or j is None:
+                return []
+            return [new_map(v) for v in _variants((i, j), alts)] if j in matches.get(i, ()) else []
+        symexec.method(me, 'deep_find_match', deep)
+        fd = symexec.new_fd(sym, mod, calls={'isinstance': _isinstance})
+        got, raised = symexec.run(fd, fn, [ins, std], bound_self=me,
+                                  what='StretchyTreeMatcher.deep_find_match_generic')
+        found = [m.attrs['pairs'] for m in got if isinstance(m, Obj)] if isinstance(got, list) else []
+        want = _assignments(n_ins, n_std, matches, conflicts, alts)
+        missing = [sorted(w, key=repr) for w in want if w not in found]
+        return missing, found, raised
+
+    def report(tag, n_ins, n_std, matches, conflicts, example, alts=()):
+        missing, found, raised = scenario(n_ins, n_std, matches, conflicts, alts)
+        ctx.check(raised is None and not missing, 'R3', 'deep_find_match_generic:sibling-search[%s]' % tag, mod, fn,
+                  "pattern children %d, student children %d, child i matches positions %r%s: the pairing(s) %r exist "
+                  "but are not among the %d map(s) returned%s" % (
+                      n_ins, n_std, {i: sorted(v) for i, v in matches.items()},
+                      ', contradicting bindings %r' % [sorted(c, key=repr) for c in conflicts] if conflicts else '',
+                      missing, len(found), '' if raised is None else ' (raises %s)' % raised.kind), example)
+    cells = [(i, j) for i in range(2) for j in range(3)]
+    n = 0
+    for bits in itertools.product((0, 1), repeat=len(cells)):
+        matches = {}
+        for (i, j), b in zip(cells, bits):
+            if b:
+                matches.setdefault(i, set()).add(j)
+        if not _assignments(2, 3, matches, set()):
+            continue        # nothing to find: completeness demands nothing
+        n += 1
+        report('2x3:%s' % ''.join(map(str, bits)), 2, 3, matches, set(),
+               "two statements of the student's program used as a pattern are not found in it")
+    ctx.floor('R3', '2x3 match tables with at least one pairing', n, 20)
+    c = lambda *ps: frozenset(ps)
+    report('first-candidate-rejected-by-conflict', 3, 5, {0: {0, 1}, 1: {2, 4}, 2: {3}},
+           {c((0, 0), (1, 2)), c((0, 1), (1, 4))},
+           "`_v_ = 0; print(_v_); z = 1` against `x = 0; y = 0; print(y); z = 1; print(x)`")
+    report('wildcards-everywhere', 3, 5, {i: set(range(5)) for i in range(3)}, set(),
+           "`___; ___; ___` against a five-statement body: ten placements")
+    report('only-the-last-positions', 3, 5, {0: {2}, 1: {3}, 2: {4}}, set(), "a pattern taken from the end of a body")
+    report('second-base-needs-an-earlier-sibling', 2, 4, {0: {0, 2}, 1: {1, 3}}, {c((0, 0), (1, 1))},
+           "`_a_ = 1; print(_a_)` against `x = 1; print(y); y = 1; print(y)`")
+    report('every-later-candidate-conflicts-but-one', 3, 5, {0: {0}, 1: {1, 2, 3}, 2: {4}},
+           {c((0, 0), (1, 1)), c((0, 0), (1, 2))}, "the only consistent middle statement is the last candidate")
+    report('second-way-of-matching-a-child-is-the-consistent-one', 2, 2, {0: {0}, 1: {1}},
+           {c(('plain', 0, 0), (1, 1))}, "`_a_ + _b_; print(_a_)` against `x + y; print(y)`: only the swapped operands fit",
+           alts={(0, 0)})
+    report('both-ways-of-matching-a-child-kept', 2, 3, {0: {0, 1}, 1: {2}}, set(),
+           "`___ * ___; done()`: straight and swapped operand maps both survive", alts={(0, 0), (0, 1)})
+    report('one-child', 1, 4, {0: {1, 3}}, set(), "a one-statement body")
+
+
+def _dump(v, seen=None):
+    """Structural picture of a map's state; student/pattern nodes by identity, everything else by content."""
+    seen = seen if seen is not None else set()
+    if isinstance(v, Obj):
+        if v._name.startswith('CaitNode') or id(v) in seen:
+            return ('node', id(v))
+        seen.add(id(v))
+        return (v._name, tuple(sorted((k, _dump(x, seen)) for k, x in v.attrs.items()
+                                      if not k.startswith('method:') and not k.startswith('__'))))
+    if isinstance(v, dict):
+        return ('dict', tuple((repr(k) if not isinstance(k, Obj) else id(k), _dump(x, seen)) for k, x in v.items()))
+    if isinstance(v, (list, tuple)):
+        return (type(v).__name__, tuple(_dump(x, seen) for x in v))
+    return repr(v)
+
+
+def r4_backtracking_is_side_effect_free(ctx, sym):
+    ctx.rule('R4', "AstMap.new_merged_map executed abstractly (real AstMap / AstSymbolList code) for a binding in each of "
+                   "the variable, function, class and expression tables: merging a candidate that contradicts the base "
+                   "map leaves the base map exactly as it was (structural comparison of its whole state), so the next, "
+                   "consistent candidate still merges without a conflict - the search backtracks over base maps and "
+                   "would otherwise lose matches")
+    from .c10 import astmap_session, ASTMAP
+    amod = ctx.repo.module(ASTMAP)
+    fn = amod.func('AstMap.new_merged_map')
+    ctx.analysed_function(amod, fn)
+
+    def std(kind, name):
+        return Obj('CaitNode<%s %s>' % (kind, name), ast_name=kind, _id=name, lineno=1, parent=None,
+                   astNode=Obj('ast.' + kind, __astclass__=kind, _id=name, id=name, name=name))
+
+    def ins(name):
+        return Obj('CaitNode<pattern %s>' % name, ast_name='Name', _id=name,
+                   astNode=Obj('ast.Name', __astclass__='Name', _id=name, id=name))
+    binders = {
+        'variable (_x_)': ('add_var_to_sym_table', lambda name: ['_x_', std('Name', name)], True),
+        'function (_f_)': ('add_func_to_sym_table', lambda name: ['_f_', std('FunctionDef', name)], True),
+        'class (_c_)': ('add_class_to_sym_table', lambda name: ['_c_', std('ClassDef', name)], True),
+        'expression (__e__)': ('add_exp_to_sym_table', lambda name: [ins('__e__'), std('Name', name)], False),
+    }
+    for what, (method, args, conflicts) in binders.items():
+        ctx.analysed_function(amod, amod.func('AstMap.' + method))
+        try:
+            fd = astmap_session(sym, amod)
+            base, bad, good = fd.calls['AstMap'](), fd.calls['AstMap'](), fd.calls['AstMap']()
+            good_args = args('a')
+            fd.call_method(base, method, args('a'))
+            fd.call_method(bad, method, args('b'))
+            fd.call_method(good, method, good_args)
+            fd.call_method(good, 'add_node_pairing', [ins('extra'), std('Name', 'extra')])
+            before = _dump(base)
+            rejected = fd.call_method(base, 'new_merged_map', [bad])
+            rejected_conflicts = bool(fd.call_method(rejected, 'has_conflicts', []))
+            after = _dump(base)
+            kept = fd.call_method(base, 'new_merged_map', [good])
+            kept_conflicts = bool(fd.call_method(kept, 'has_conflicts', []))
+            # the new map is independent of the base: extending it further does not reach back either
+            fd.call_method(kept, method, args('c'))
+            later = _dump(base)
+            raised = None
+        except Inconclusive as e:
+            raise AnalysisError("C11 R4: AstMap outside the decidable fragment: %s" % e)
+        except Raised as e:
+            raised, before, after, later, rejected_conflicts, kept_conflicts = e, 0, 1, 2, None, None
+        tag = '[%s]' % what
+        ctx.check(raised is None and before == after, 'R4', 'new_merged_map:base-unchanged-by-rejected-candidate' + tag,
+                  amod, fn, "merging a candidate that binds the %s placeholder differently %s" % (
+                      what, 'raises %s' % raised.kind if raised is not None else 'changes the base map itself'),
+                  "`def _f_(): ...; print(_f_(2))` against `def perimeter..; print(area(2)); print(perimeter(2))`: the "
+                  "rejected call to area pollutes the base map and the right call is reported as a conflict")
+        if raised is None:
+            ctx.check(rejected_conflicts is conflicts and not kept_conflicts, 'R4',
+                      'new_merged_map:consistent-candidate-still-merges' + tag, amod, fn,
+                      "after a contradicting candidate (conflict reported: %r) the consistent candidate merges with "
+                      "conflict reported: %r" % (rejected_conflicts, kept_conflicts),
+                      "the match that exists is dropped as conflicting")
+            ctx.check(later == before, 'R4', 'new_merged_map:result-independent-of-base' + tag, amod, fn,
+                      "extending the merged map with another %s binding changes the base map it was built from" % what,
+                      "sibling candidates contaminate each other through a shared table")
+
+
+_PATTERN_TEXTS = [
+    'x = 1',
+    'doc = """first\n   \nlast"""\nprint(doc)',             # a whitespace-only line inside a string literal
+    'def f():\n    """Doc.\n\t\n    more\n    """\n    return 1',
+    'text = "a\\tb"  \nprint(text)\n',                     # trailing blanks, final newline
+    'if a:\n        b = 1\n        c = 2',                    # unusual but valid indentation
+]
+
+
+def r5_pattern_text(ctx, sym, mod):
+    ctx.rule('R5', "StretchyTreeMatcher.__init__ and find_matches executed abstractly with pattern / program texts "
+                   "(string literals with whitespace-only lines, tabs, trailing blanks, deep indentation): the text "
+                   "handed to ast.parse has the same syntax tree (same constants) as the text given")
+    from .. import symexec
+    init = mod.func('StretchyTreeMatcher.__init__')
+    fm = mod.func('StretchyTreeMatcher.find_matches')
+    ctx.analysed_function(mod, init)
+    ctx.analysed_function(mod, fm)
+    for text in _PATTERN_TEXTS:
+        want = ast.dump(ast.parse(text))
+        for which in ('pattern', 'program'):
+            parsed = []
+
+            def parse(source, *a, **k):
+                parsed.append(source)
+                return Obj('tree', __astclass__='Module')
+            node = lambda *a, **k: Obj('CaitNode<root>', field='none', children=[], ast_name='Module')
+            fd = symexec.new_fd(sym, mod, calls={'ast.parse': parse, 'CaitNode': node, 'isinstance': _isinstance})
+            me = symexec.self_obj(mod, 'StretchyTreeMatcher', report=Obj('report'))
+            if which == 'pattern':
+                _, raised = symexec.run(fd, init, [text, Obj('report')], bound_self=me,
+                                        what='StretchyTreeMatcher.__init__')
+            else:
+                me.attrs['root_node'] = Obj('CaitNode<pattern>', field='none', children=[], ast_name='Assign')
+                symexec.method(me, 'any_node_match', lambda *a, **k: [])
+                _, raised = symexec.run(fd, fm, [text], bound_self=me, what='StretchyTreeMatcher.find_matches')
+            try:
+                same = len(parsed) == 1 and isinstance(parsed[0], str) and ast.dump(ast.parse(parsed[0])) == want
+            except SyntaxError:
+                same = False
+            ctx.check(raised is None and same, 'R5', '%s-text-parsed-as-given[%r]' % (which, text[:24]), mod,
+                      init if which == 'pattern' else fm,
+                      "the %s text %r reaches ast.parse as %r%s" % (which, text, parsed,
+                                                                 '' if raised is None else ' (raises %s)' % raised.kind),
+                      "a program with a docstring containing a blank-but-indented line, used as its own pattern, does "
+                      "not match")
+
+
+def r6_placeholder_named_identifiers(ctx, sym, mod):
+    ctx.rule('R6', "StretchyTreeMatcher.shallow_symbol_handler executed abstractly (real AstMap) for the three identifier "
+                   "positions its callers pass (Name.id, Attribute.attr, arg.arg) x identifier shapes (_v_, __e__, ___, "
+                   "__init__-like dunder, plain) on model nodes that carry only the fields their kind has: it never "
+                   "raises, and a placeholder-shaped identifier yields one mapping pairing the two nodes - a student "
+                   "program that mentions obj.__dict__ or super().__init__ still matches itself")
+    from .. import symexec
+    fn = mod.func('StretchyTreeMatcher.shallow_symbol_handler')
+    ctx.analysed_function(mod, fn)
+    kinds = {'id': 'Name', 'attr': 'Attribute', 'arg': 'arg'}
+    for id_val, kind in kinds.items():
+        for ident in ('_v_', '__e__', '___', '__init__', 'plain'):
+            def model(who):
+                fields = {id_val: ident, '_id': ident}
+                a = Obj('ast.' + kind, __astclass__=kind, __closed__=True, **fields)
+                symexec.method(a, '__getattribute__', lambda n, a=a: a.attrs[n] if n in a.attrs else (_ for _ in ()).throw(
+                    Raised('AttributeError', "'%s' object has no attribute '%s'" % (kind, n))))
+                return Obj('CaitNode<%s %s>' % (who, ident), ast_name=kind, field='value', astNode=a, ast_node=a,
+                           children=[], lineno=1, _id=ident, parent=None, **{id_val: ident})
+            ins, std = model('pattern'), model('student')
+            me = symexec.self_obj(mod, 'StretchyTreeMatcher')
+            symexec.method(me, 'shallow_match_main', lambda *a, **k: 'delegated-to-shallow_match_main')
+            symexec.method(me, 'metas_match', lambda *a, **k: True)
+            import re as _re
+
+            def re_compile(pattern, flags=0):
+                rx = _re.compile(pattern, flags)
+                o = Obj('pattern %r' % pattern)
+                o.attrs['method:match'] = lambda text: (Obj('match') if rx.match(text) else None)
+                return o
+            fd = symexec.new_fd(sym, mod, calls={
+                're.compile': re_compile, 'isinstance': _isinstance,
+                'type': lambda o: Obj('type', __name__=o.attrs.get('__astclass__', o._name), __closed__=True)
+                if isinstance(o, Obj) else type(o)})
+            got, raised = symexec.run(fd, fn, [ins, std, id_val, True], bound_self=me,
+                                      what='StretchyTreeMatcher.shallow_symbol_handler')
+            placeholder = ident != 'plain'
+            if raised is not None:
+                ok = False
+            elif placeholder:
+                ok = isinstance(got, list) and len(got) == 1 and isinstance(got[0], Obj) and \
+                    got[0].attrs.get('mappings', {}).get(ins) is std
+            else:
+                ok = got == 'delegated-to-shallow_match_main'
+            ctx.check(ok, 'R6', 'shallow_symbol_handler[%s.%s=%s]' % (kind, id_val, ident), mod, fn,
+                      "a pattern %s whose %s is %r against the same student node %s" % (
+                          kind, id_val, ident, 'raises %s (%s)' % (raised.kind, raised.detail) if raised is not None
+                          else 'gives %r' % (got,)),
+                      "print(obj.__dict__) used as its own pattern raises AttributeError: 'Attribute' object has no "
+                      "attribute 'id'")
+
+
 def run(ctx):
     sym = Symbols(ctx.repo)
     mod = ctx.repo.module(MATCH)
     r1_every_subtree(ctx, sym, mod)
     r2_placeholders_match_anything(ctx, sym, mod)
+    r3_sibling_search(ctx, sym, mod)
+    r4_backtracking_is_side_effect_free(ctx, sym)
+    r5_pattern_text(ctx, sym, mod)
+    r6_placeholder_named_identifiers(ctx, sym, mod)
     ctx.assume("completeness of the search as a whole (sibling windows, youngest-sibling bookkeeping, meta-field "
                "matching along the recursion, dropped sibling statements, consistent _var_ renaming) is an inductive "
                "property of the algorithm and is NOT decided; only the three structural clauses above are")
